@@ -1,6 +1,7 @@
 import PytmeModel.Model.C15
 import PytmeModel.Proofs.C15
 import PytmeModel.Proofs.C15Nd
+import PytmeModel.Proofs.C15Geo
 import Mathlib.Tactic.Ring
 import Mathlib.Tactic.Linarith
 
@@ -200,6 +201,39 @@ theorem resample_shape_exact (n a b : Nat) (hb : 0 < b) (k : Nat) (h : n * a = k
 theorem resample_rate {β : Type} (g : Geo β) (newRate : List Nat) : (resample g newRate).rate = newRate := rfl
 theorem resample_origin {β : Type} (g : Geo β) (newRate : List Nat) : (resample g newRate).origin = g.origin := rfl
 
+/-! ## histories of the geometry that contain resampling -/
+
+/-- a box operation after any earlier operations (resamplings included) keeps every position of the
+grid at its physical coordinate **under the rate then in force**: new index `i` has the coordinate of
+old index `i + start` on every axis. -/
+theorem geoStep_box_physical (g : Geo Int) (b : Box) (idx : List Int) :
+    gphys (geoStep g (.box b)) idx = gphys g (List.zipWith (fun (i : Int) (p : Int × Int) => i + p.1) idx b) :=
+  gphys_box g b idx
+
+/-- a box operation yields the requested extents and leaves the rate alone; resampling keeps the origin and
+records the new rate, whatever happened before -/
+theorem geoStep_bookkeeping (g : Geo Int) (b : Box) (nr : List Nat) :
+    (geoStep g (.box b)).shape = b.map (fun p => (max (p.2 - p.1) 0).toNat) ∧ (geoStep g (.box b)).rate = g.rate ∧
+    (geoStep g (.resample nr)).origin = g.origin ∧ (geoStep g (.resample nr)).rate = nr ∧ geoStep g .copy = g :=
+  ⟨rfl, rfl, rfl, rfl, rfl⟩
+
+/-- **all sequences** of box operations and copies between two resamplings: a position of the final grid has
+the physical coordinate of the position of the initial grid it is traced to (induction over the history) -/
+theorem geoRun_physical (g : Geo Int) (ops : List GOp) (idx : List Int)
+    (h : ∀ op ∈ ops, op.isResample = false) :
+    gphys (geoRun g ops) idx = gphys g (gtrace ops idx) :=
+  geoRun_gphys g ops idx h
+
+/-- histories compose, so the statement above applies to every stretch between resamplings, starting from
+the geometry the resampling left (`resample_origin`, `resample_rate`, `resample_shape`) -/
+theorem geoRun_compose (g : Geo Int) (ops1 ops2 : List GOp) (nr : List Nat) :
+    geoRun g (ops1 ++ .resample nr :: ops2) = geoRun (resample (geoRun g ops1) nr) ops2 := by
+  rw [geoRun_append]; rfl
+
+/-- after any history the recorded rate is the one asked for by the last resampling (the initial one if none) -/
+theorem geoRun_rate (g : Geo Int) (ops : List GOp) : (geoRun g ops).rate = lastRate g.rate ops :=
+  geoRun_rate_eq g ops
+
 /-! ## per-axis arguments (`origin`, `sampling_rate`, `new_sampling_rate`) -/
 
 /-- whatever is accepted has one entry per axis; a scalar is repeated, a full tuple kept -/
@@ -268,6 +302,18 @@ example :
     (runFrom d ops).map (fun r => (r.data.toList, r.frame)) = some ([2,3], [(1,1)]) ∧
     traceFrom d ops [1] = some [2] := by decide
 
+
+example :
+    let g : Geo Int := ⟨[11, 11], [0, 0], [8, 8]⟩
+    let ops : List GOp := [.resample [16, 4], .box [(-1, 4), (2, 30)], .copy, .resample [8, 4], .box [(1, 3), (0, 5)]]
+    geoStates g ops = [⟨[6, 22], [0, 0], [16, 4]⟩, ⟨[5, 28], [-16, 8], [16, 4]⟩, ⟨[5, 28], [-16, 8], [16, 4]⟩,
+                       ⟨[10, 28], [-16, 8], [8, 4]⟩, ⟨[2, 5], [-8, 8], [8, 4]⟩] ∧
+    lastRate g.rate ops = [8, 4] := by decide
+/-- the hypothesis of `geoRun_physical` is satisfiable by a history that moves the grid -/
+example :
+    let g : Geo Int := ⟨[6, 22], [0, 0], [16, 4]⟩
+    let ops : List GOp := [.box [(-1, 4), (2, 30)], .copy, .box [(1, 3), (0, 5)]]
+    (∀ op ∈ ops, op.isResample = false) ∧ gtrace ops [0, 0] = [0, 2] ∧ gphys (geoRun g ops) [0, 0] = [0, 8] := by decide
 
 /-- hypotheses of `adjustBox_conserves_physical` are satisfiable: voxel `[0,1]` of a 2×2 array lies in
 the box `[-1,2)×[1,3)` and is found again -/
